@@ -18,7 +18,7 @@ ID = 'C09'
 LEVEL = 'exploration'
 RULE = (
     'every assignment of counts {0,1,2,7} to the voxels of grids (2,2,1), (1,3,2), (2,2,2) with at least one '
-    'non-zero voxel (255 + 4095 + 65535), also scaled by 1/8 and 1/3 (float densities below 1), x temperatures {1,77,300,1000} K queried one after the other on the SAME Volume object (first temperature repeated at the end); graph node sets for thresholds '
+    'non-zero voxel (255 + 4095 + 65535), also scaled by 1/8 and 1/3 (float densities below 1) and as float32, x temperatures {1,77,300,1000} K queried one after the other on the SAME Volume object (first temperature repeated at the end); graph node sets for thresholds '
     '{default 1e20, 1e7}; evaluation = one (density, temperature); distinct = distinct (density, T) free-energy arrays'
 )
 LEVEL_TEXT = (
@@ -34,7 +34,7 @@ KB_EV = 8.617333262e-5
 COUNTS = [0, 1, 2, 7]
 SHAPES = [(2, 2, 1), (1, 3, 2), (2, 2, 2)]
 TEMPS = [1.0, 77.0, 300.0, 1000.0]
-SCALES = [1, 0.125, 1.0 / 3.0]
+SCALES = [1, 0.125, 1.0 / 3.0, 'float32']
 
 
 def shards(tier, seed):
@@ -79,7 +79,8 @@ def evaluate(data, T, graph=True, vol=None):
     if not np.all(np.isfinite(F)):
         viols.append(('free-energy-not-finite', f'F={F.tolist()} data={data.tolist()}'))
         return viols, ('nonfinite',)
-    tot = float(data.sum())
+    tot = float(np.asarray(data, dtype=float).sum())
+    tol = 1e-6 if data.dtype == np.float32 else 1e-9  # a float32 density carries float32 rounding into F
     kT = KB_EV * T
     vis = data > 0
     psum = 0.0
@@ -87,10 +88,10 @@ def evaluate(data, T, graph=True, vol=None):
         idx = tuple(idx)
         p = math.exp(-F[idx] / kT)
         psum += p
-        if abs(p - data[idx] / tot) > 1e-9:
+        if abs(p - float(data[idx]) / tot) > tol:
             viols.append(('boltzmann-inversion-does-not-recover-probability', f'voxel {idx}: exp(-F/kT)={p} data/total={data[idx] / tot} T={T} data={data.tolist()}'))
             break
-    if abs(psum - 1) > 1e-9:
+    if abs(psum - 1) > tol * max(1, int(vis.sum())):
         viols.append(('probabilities-do-not-sum-to-one', f'sum={psum} T={T} data={data.tolist()}'))
     flatd, flatF = data.ravel(), F.ravel()
     order = np.argsort(flatd)
@@ -104,7 +105,8 @@ def evaluate(data, T, graph=True, vol=None):
             break
     if graph:
         exp_nodes = {tuple(int(i) for i in idx) for idx in np.argwhere(vis)}
-        for thr in (None, 1e7):
+        F_before = F.copy()
+        for thr in ((None, 1e7) if int(data.sum() * 8) % 2 == 0 else (1e7, None)):
             try:
                 G = fe.free_energy_graph() if thr is None else fe.free_energy_graph(max_energy_threshold=thr)
                 nodes = {tuple(int(i) for i in n) for n in G.nodes}
@@ -116,6 +118,8 @@ def evaluate(data, T, graph=True, vol=None):
                         break
             except Exception as e:  # noqa: BLE001
                 viols.append((f'graph-raise-{type(e).__name__}', str(e)))
+        if not np.array_equal(np.asarray(fe.data, dtype=float), F_before):
+            viols.append(('graph-building-modifies-the-free-energy', f'data={data.tolist()}'))
     return viols, (data.tobytes(), T, np.round(F, 12).tobytes())
 
 
@@ -131,13 +135,13 @@ def run_shard(shard) -> Result:
         base = np.array(vals).reshape(shape)
         # scale: the same density as integer counts, as counts per frame (floats < 1) and as thirds
         for si, scale in enumerate(SCALES if (n <= 6 or sum(vals) % 3 == 0) else SCALES[:1]):
-            data = base if scale == 1 else base * scale
+            data = base if scale == 1 else (base.astype(np.float32) if scale == 'float32' else base * scale)
             from gemdat.volume import Volume
 
             vol = Volume(data=data.copy(), lattice=lattice())  # ONE object queried repeatedly (history)
             temps = list(shard['temps']) + [shard['temps'][0]]
             for ti, T in enumerate(temps):
-                viols, key = evaluate(data, T, graph=shard['graph'] and T in (1.0, 300.0) and si == 0, vol=vol)
+                viols, key = evaluate(data, T, graph=shard['graph'] and T in (1.0, 300.0) and si in (0, 3), vol=vol)
                 res.evals += 1
                 res.outcome(hash(key))
                 for kind, detail in viols:
